@@ -50,7 +50,10 @@ impl Rt for Legacy {
         JoinH::none()
     }
     fn yield_now(&self) -> BoxFuture<'static, ()> {
-        self_waking_yield()
+        self_waking_yield(false)
+    }
+    fn yield_by_value(&self) -> BoxFuture<'static, ()> {
+        self_waking_yield(true)
     }
     fn chan_send(&self, c: usize, v: u32) {
         self.uni.chans[c].send(v)
